@@ -249,6 +249,70 @@ func buildCatalogue(c *Ctx) []buildCase {
 			})
 		}})
 	}
+	// 6b. the same short name in different scopes, each carrying annotations
+	statusEnum := func() *spec.EnumDef {
+		return &spec.EnumDef{Name: "Status", Values: []spec.EnumValue{{Name: "STATUS_UNSPECIFIED", Num: 0, JSON: spec.S("unknown")}, {Name: "STATUS_OK", Num: 1, JSON: spec.S("ok")}}}
+	}
+	itemMsg := func(kind string) *spec.Message {
+		// one annotation per message: combinations on one message are section 2's subject
+		m := &spec.Message{Name: "Item", Fields: []*spec.Field{spec.F("n", 1, spec.Int64).With(func(a *spec.Ann) { a.Int64Enc = 2 })}}
+		if kind == "oneof" {
+			m.Fields = []*spec.Field{spec.F("n", 1, spec.Int64), spec.F("a_txt", 3, spec.String).In(1), spec.F("b_num", 4, spec.Int32).In(1)}
+			m.Oneofs = []*spec.Oneof{{Name: "pick", HasConfig: true, Discriminator: "kind"}}
+		}
+		return m
+	}
+	for _, sc := range []struct {
+		label string
+		fill  func(pkg string, f *spec.File)
+	}{
+		{"nested-enums-same-short-name", func(pkg string, f *spec.File) {
+			f.Messages = []*spec.Message{
+				{Name: "Order", Enums: []*spec.EnumDef{statusEnum()}, Fields: []*spec.Field{spec.FE("status", 1, "."+pkg+".Order.Status")}},
+				{Name: "Shipment", Enums: []*spec.EnumDef{statusEnum()}, Fields: []*spec.Field{spec.FE("status", 1, "."+pkg+".Shipment.Status"), spec.FM("order", 2, "."+pkg+".Order")}}}
+		}},
+		{"top-and-nested-enum-same-short-name", func(pkg string, f *spec.File) {
+			f.Enums = []*spec.EnumDef{statusEnum()}
+			f.Messages = []*spec.Message{
+				{Name: "Order", Enums: []*spec.EnumDef{statusEnum()}, Fields: []*spec.Field{spec.FE("status", 1, "."+pkg+".Order.Status"), spec.FE("top", 2, "."+pkg+".Status")}},
+				{Name: "Shipment", Fields: []*spec.Field{spec.FM("order", 2, "."+pkg+".Order")}}}
+		}},
+		{"nested-messages-same-short-name", func(pkg string, f *spec.File) {
+			f.Messages = []*spec.Message{
+				{Name: "Order", Nested: []*spec.Message{itemMsg("")}, Fields: []*spec.Field{spec.FM("items", 1, "."+pkg+".Order.Item").Rep()}},
+				{Name: "Shipment", Nested: []*spec.Message{itemMsg("")}, Fields: []*spec.Field{spec.FM("items", 1, "."+pkg+".Shipment.Item").Rep(), spec.FM("order", 2, "."+pkg+".Order")}}}
+		}},
+		{"nested-discriminated-oneofs-same-names", func(pkg string, f *spec.File) {
+			f.Messages = []*spec.Message{
+				{Name: "Order", Nested: []*spec.Message{itemMsg("oneof")}, Fields: []*spec.Field{spec.FM("item", 1, "."+pkg+".Order.Item")}},
+				{Name: "Shipment", Nested: []*spec.Message{itemMsg("oneof")}, Fields: []*spec.Field{spec.FM("item", 1, "."+pkg+".Shipment.Item"), spec.FM("order", 2, "."+pkg+".Order")}}}
+		}},
+		{"nested-unwrap-wrappers-same-short-name", func(pkg string, f *spec.File) {
+			w := func() *spec.Message {
+				return &spec.Message{Name: "List", Fields: []*spec.Field{spec.F("vals", 1, spec.String).Rep().With(func(a *spec.Ann) { a.Unwrap = true })}}
+			}
+			f.Messages = []*spec.Message{
+				{Name: "Order", Nested: []*spec.Message{w()}, Fields: []*spec.Field{spec.FM("by_key", 1, "."+pkg+".Order.List").MapOf(spec.String)}},
+				{Name: "Shipment", Nested: []*spec.Message{w()}, Fields: []*spec.Field{spec.FM("by_key", 1, "."+pkg+".Shipment.List").MapOf(spec.String), spec.FM("order", 2, "."+pkg+".Order")}}}
+		}},
+	} {
+		sc := sc
+		for _, withSvc := range []bool{true, false} {
+			withSvc := withSvc
+			id := "scope/" + sc.label
+			if !withSvc {
+				id += "/types-only"
+			}
+			out = append(out, buildCase{ID: id, TS: withSvc, Files: func(pkg, goName string) []*spec.File {
+				return oneFile(pkg, goName, func(f *spec.File) {
+					sc.fill(pkg, f)
+					if withSvc {
+						f.Services = []*spec.Service{echoSvc(pkg, "ScopeService", "Shipment", "Shipment", 2, "/s")}
+					}
+				})
+			}})
+		}
+	}
 	// 7. package layouts
 	out = append(out, buildCase{ID: "layout/two-services-one-file", TS: true, Files: func(pkg, goName string) []*spec.File {
 		return oneFile(pkg, goName, func(f *spec.File) {
